@@ -140,6 +140,7 @@ impl<'source> WinnowBlockTagParser<'source> {
                     }
                 }
 //@edit rule=ghost before=<<if let Ok(>> nth=0 of=2
+                let ghost verif_off_lt: int = offset as int; // the offset of the `<` under test
                 proof {
                     // potential_tag_start is the text of source[cursor + offset ..]
                     let b = utf8(self.source@);
@@ -166,12 +167,14 @@ impl<'source> WinnowBlockTagParser<'source> {
                         assert(utf8(remaining@) =~= b.subrange(self.cursor + offset + n, b.len() as int));
                         lemma_substr_starts_on_boundary(b, self.cursor + offset + n, remaining@);
                     }
-//@edit rule=ghost before=<<current_input = &potential_tag_start[>>
+//@edit rule=ghost before=<<} else {>>
                 proof {
-                    // not a tag here: position cursor + offset is no candidate
-                    assert(!cand(self.source@, self.cursor as int, self.cursor + offset)); // [T3.proof.skipped_lt_is_no_candidate]
+                    // not a tag at the `<` under test: its position is no candidate. Stated at the END of the branch and
+                    // over the offset captured before the two parse attempts, so that the order of the two
+                    // independent statements `current_input = ..` / `offset += 1` does not matter.
+                    assert(!cand(self.source@, self.cursor as int, self.cursor + verif_off_lt)); // [T3.proof.skipped_lt_is_no_candidate]
                     assert(utf8(potential_tag_start@).subrange(1, utf8(potential_tag_start@).len() as int)
-                        =~= utf8(self.source@).subrange(self.cursor + offset + 1, utf8(self.source@).len() as int));
+                        =~= utf8(self.source@).subrange(self.cursor + verif_off_lt + 1, utf8(self.source@).len() as int));
                 }
 //@edit rule=ghost after=<<} else {>>
                 proof {
